@@ -22,6 +22,20 @@ Theorem found_file_carries_the_literals disk lits p id :
 Proof. exact (ModFSProofs.found_file_carries_the_literals disk lits p id). Qed.
 Print Assumptions found_file_carries_the_literals.
 
+(* the converse: on a well-formed disk (one file per name, no name both a file and a directory) EVERY file whose normalised components read as the requested literals is a path of the searched tree *)
+Theorem matching_file_is_a_path disk lits n nm bytes :
+  files_wf (disk_files disk) -> nth_error disk n = Some (nm, bytes) ->
+  map (fun c => name_lit (norm_name c)) (comps nm) = map Some lits -> In (map norm_name (comps nm), N.of_nat n) (all_paths lits (tree_of_disk disk)).
+Proof. exact (ModFSProofs.matching_file_is_a_path disk lits n nm bytes). Qed.
+Print Assumptions matching_file_is_a_path.
+
+(* hence the search answers NotFound only when no file of the disk matches the literals *)
+Theorem not_found_means_no_match disk lits :
+  files_wf (disk_files disk) -> search lits (tree_of_disk disk) = NotFound ->
+  forall n nm bytes, nth_error disk n = Some (nm, bytes) -> map (fun c => name_lit (norm_name c)) (comps nm) <> map Some lits.
+Proof. exact (ModFSProofs.not_found_means_no_match disk lits). Qed.
+Print Assumptions not_found_means_no_match.
+
 (* the whole built-in on literal words (not the built-in marker 5): nothing is evaluated, the tree is searched, the file found goes to the same loader as a path string *)
 Theorem import_by_literals rec sp argv ip h w h1 l0 lits p id nm bytes :
   runG rec (option (list Z)) ip h w (peek_lits argv) = DoneG h1 w (inl (Some (l0 :: lits))) 0 -> argv <> [] -> l0 <> 5%Z ->
